@@ -504,7 +504,7 @@ func c08(r *Report, s *Sem) {
 				if ifi == nil {
 					return false
 				}
-				if call, _, isNil, ok := errTest(ifi, k == 0); ok && ssa.Instruction(call) == readCall && !isNil {
+				if isNil, ok := errTestOf(ifi, k == 0, readCall); ok && !isNil {
 					return true
 				}
 				cd := condOn(ifi, k == 0)
@@ -536,8 +536,8 @@ func c08(r *Report, s *Sem) {
 			if ifi == nil {
 				return false
 			}
-			call, _, isNil, ok := errTest(ifi, k == 0)
-			return ok && ssa.Instruction(call) == readCall && !isNil
+			isNil, ok := errTestOf(ifi, k == 0, readCall)
+			return ok && !isNil
 		},
 		onExit: func(e ssa.Instruction, pred *ssa.BasicBlock) {
 			if ret, ok := e.(*ssa.Return); ok && !retMayBeNilVia(ret, pred) {
